@@ -43,6 +43,12 @@ def gen_history(rng, hid):
                  (host, 1, 0x8001, 120, dnsgen.rd_bytes(bytes([192, 168, 1, 50 + i])))]
         if rng.random() < 0.3:
             recs.append((host, 28, 0x8001, 120, dnsgen.rd_bytes(bytes([0xfe, 0x80] + [0] * 13 + [i + 1]))))
+    nsub = 0
+    for (nm, ty_, _c, _t, rd) in list(recs):
+        # subtype PTRs of the browsed type, as a responder with subtypes announces them
+        if ty_ == 12 and nm == ty and rng.random() < 0.35:
+            recs.append(([rng.choice([b"_s1", b"_printer"]), b"_sub"] + ty, 12, 1, 4500, rd))
+            nsub += 1
     nkeep = 0
     if keep_other:
         kinst = [b"K"] + other
@@ -60,7 +66,16 @@ def gen_history(rng, hid):
     t += 60000
     steps.append({"run_until": t})
     steps.append({"t": t, "calls": [{"op": "get_metrics", "ch": "g2"}]})
-    return json.dumps({"id": hid, "sf": nkeep, "ty": tys, "t0": 1000000, "daemons": [{"seed": 1, "ifaces": IFACES}], "steps": steps},
+    if nsub and rng.random() < 0.5:
+        # a browse of the subtype after the stop must not report anything without a new packet
+        sub_browse = True
+        sty = None
+        for (nm, ty_, _c, _t, rd) in recs:
+            if ty_ == 12 and len(nm) == len(ty) + 2:
+                sty = dnsgen.dotted(nm).decode()
+        steps.append({"t": t, "calls": [{"op": "browse", "ty": sty, "ch": "s"}]})
+        steps.append({"run_until": t + 3000})
+    return json.dumps({"id": hid, "sf": nkeep, "nsub": nsub, "ty": tys, "t0": 1000000, "daemons": [{"seed": 1, "ifaces": IFACES}], "steps": steps},
                       separators=(",", ":"))
 
 
@@ -95,7 +110,14 @@ def project(line, raw):
                     got = [m.get(k, 0) for k in COUNTERS]
                     want = [nkeep, nkeep, nkeep, nkeep]
                     if got != want:
+                        nsub = h.get("nsub", 0)
+                        if nsub and got[1:] == want[1:] and 0 < got[0] - want[0] <= nsub:
+                            # exactly the subtype PTRs of the stopped type are left, nothing else
+                            return "SF leftover-subptr %s=%s expected %s" % (ch, got, want)
                         return "SF leftover %s=%s expected %s" % (ch, got, want)
+        for e in (r.get("events") or {}).get("s", []):
+            if e.get("e") in ("ServiceFound", "ServiceResolved"):
+                return "SF leftover-subptr reported-after-stop %s" % e.get("e")
         if stop_t is not None and r.get("now", 0) > stop_t:
             for s in r.get("sent", []):
                 p = dnsgen.parse_packet(bytes.fromhex(s["hex"]))
